@@ -4,8 +4,8 @@
 #include "unit_types.h"
 #include "zmodel.h"
 typedef struct S_class_ikos__q_number Q;
-#define QNUM(q) (&(q)->f0.a[0].f0)
-#define QDEN(q) (&(q)->f0.a[0].f1)
+#define QNUM(q) (&(q)->f0.a.f0)
+#define QDEN(q) (&(q)->f0.a.f1)
 static inline i128 zv_raw(struct S_struct___mpz_struct *m){ return (i128)(((u128)m->f1 << 64) | (u128)m->f0); }
 i128 __CPROVER_uninterpreted_qceil(i128, i128);
 i128 __CPROVER_uninterpreted_qfloor(i128, i128);
